@@ -12,6 +12,15 @@ def iffDialect (s : String) : Option Dialect :=
   | "dsdiff" => some dsdiff
   | _ => none
 
+/-- the `pad=` argument for sizes of either sign (cf. `padOf`) -/
+def padOfZ (a : Args) : PadZ :=
+  match a.str "pad" "default" with
+  | "default" => .default
+  | "keep" => .callback fun p _ => if p < 0 then 0 else p
+  | v => match v.toInt? with
+    | some n => .callback fun _ _ => n
+    | none => .default
+
 def iffOp (a : Args) : String :=
   let ex (r : Except PyErr Bytes) : String :=
     match r with
@@ -21,7 +30,14 @@ def iffOp (a : Args) : String :=
   | none => "bad-op"
   | some d =>
     match a.str "op" with
-    | "save" => ex (save d (a.bytes "data") (a.nat "vmaj" 4) (a.bytes "frames") (padOf a))
+    -- `saveZ` = `save` wherever `save` is defined (C04_Iff.iff_saveZ_extends_save), and covers truncated ID3 chunks
+    | "save" => ex (saveZ d (a.bytes "data") (a.nat "vmaj" 4) (a.bytes "frames") (padOfZ a))
+    | "save0" => ex (save d (a.bytes "data") (a.nat "vmaj" 4) (a.bytes "frames") (padOf a))
+    | "locate" =>
+      match locate d (a.bytes "data") with
+      | .error e => s!"err {e.name}"
+      | .ok none => "ok none=1"
+      | .ok (some r) => s!"ok id={toHex r.id} offset={r.offset} size={r.dataSize}"
     | "delete" => ex (delete d (a.bytes "data"))
     | "walk" =>
       -- root data_size, the sub-chunks `id@offset:data_size`, and the index of the ID3 chunk (-1: none)
